@@ -103,10 +103,10 @@ int main (int argc, char **argv)
 	vh_init (argc, argv, "c06_seek_partition", "C06") ;
 	vh_enum_formats () ;
 	for (f = 0 ; f < vh_nfmts ; f++) for (e = 0 ; e < (vh_thorough ? 3 : 1) ; e++)
-	{	int chs [8], nch, format = vh_fmts [f].format | endians [e], nw = vh_thorough ? 32 : 16 ;
+	{	int chs [12], nch, format = vh_fmts [f].format | endians [e], nw = vh_thorough ? 32 : 16 ;
 		if (vh_fmts [f].major == SF_FORMAT_SD2) continue ;
 		if (e > 0 && !vh_accepts (format, 1, 8000) && !vh_accepts (format, 2, 8000)) continue ;
-		nch = vh_channels_for (format, chs, 8, vh_thorough) ;
+		nch = vh_channels_for (format, chs, 12, vh_thorough) ;
 		for (c = 0 ; c < nch ; c++) for (w = 0 ; w < nw ; w++)
 		{	int mode = (w & 1), steps = mode == 0 ? 100000 : (vh_thorough ? 6000 : 2000) ;
 			if (chs [c] > 17 && w > 1) continue ;
